@@ -109,7 +109,7 @@ def build_harness():
             cc = open(os.path.join(hdir, ".cargo", "config.toml")).read().replace(os.path.join(BUILD, "harness-target"), HARNESS_TARGET)
             open(os.path.join(hdir, ".cargo", "config.toml"), "w").write(cc)
         shutil.copyfile(os.path.join(REPO, "Cargo.lock"), os.path.join(hdir, "Cargo.lock"))
-        rc, out, err = run(["cargo", "build", "--offline"], cwd=hdir, timeout=3600)
+        rc, out, err = run(["cargo", "build", "--offline", "--target-dir", HARNESS_TARGET], cwd=hdir, timeout=3600)
     return rc == 0, out + err
 
 
